@@ -28,8 +28,8 @@ func init() {
 	Extend("C18", "(X4) every Clone/clone of a workflow type is an encode∘decode of the receiver into a fresh value with no reference copied from the receiver (shared with C14-M5).",
 		func(c *rt.Ctx) { c.Rule("X4", 34, func() { c14M5(c) }) },
 		Mutant{ID: "C18-X4-clone-shares-pointer", File: "core/unsigneddata.go", Expect: "X4",
-			Old: "func (p VersionedProposal) Clone() (UnsignedData, error) {\n\tvar resp VersionedProposal\n\n\terr := cloneJSONMarshaler(p, &resp)\n\tif err != nil {\n\t\treturn nil, errors.Wrap(err, \"clone block\")\n\t}\n",
-			New: "func (p VersionedProposal) Clone() (UnsignedData, error) {\n\tvar resp VersionedProposal\n\n\terr := cloneJSONMarshaler(p, &resp)\n\tif err != nil {\n\t\treturn nil, errors.Wrap(err, \"clone block\")\n\t}\n\n\tresp.ConsensusValue = p.ConsensusValue\n"})
+			Old: "func (p VersionedProposal) Clone() (UnsignedData, error) {\n\tvar resp VersionedProposal\n\n\terr := cloneSSZMarshaler(p, &resp)\n\tif err != nil {\n\t\treturn nil, errors.Wrap(err, \"clone block\")\n\t}\n",
+			New: "func (p VersionedProposal) Clone() (UnsignedData, error) {\n\tvar resp VersionedProposal\n\n\terr := cloneSSZMarshaler(p, &resp)\n\tif err != nil {\n\t\treturn nil, errors.Wrap(err, \"clone block\")\n\t}\n\n\tresp.ConsensusValue = p.ConsensusValue\n"})
 
 	// C14 determinism: the receiver must recompute the value hash with the same deterministic function the
 	// proposer commits to (raw Any bytes are not deterministic for maps).
@@ -64,8 +64,8 @@ func init() {
 	Extend("C17", "(W5) MemDBV2.notify is read only in the critical section of the lookup that missed (or by Store under the write lock).",
 		c17W5,
 		Mutant{ID: "C17-W5-second-critical-section", File: "core/aggsigdb/memory_v2.go", Expect: "W5",
-			Old: "\t\t\tif !ok {\n\t\t\t\treturn nil, m.notify, errMustLoop\n\t\t\t}",
-			New: "\t\t\tif !ok {\n\t\t\t\treturn nil, nil, errMustLoop\n\t\t\t}",
+			Old:  "\t\t\tif !ok {\n\t\t\t\treturn nil, m.notify, errMustLoop\n\t\t\t}",
+			New:  "\t\t\tif !ok {\n\t\t\t\treturn nil, nil, errMustLoop\n\t\t\t}",
 			More: [][2]string{{"\t\tcase <-notify:", "\t\tcase <-func() <-chan struct{} { m.RLock(); defer m.RUnlock(); _ = notify; return m.notify }():"}}})
 
 	// C07: the list handed to the threshold matcher is a private snapshot; the exempt cap evicts the OLDEST entry.
@@ -376,7 +376,7 @@ func c17W5(c *rt.Ctx) {
 				good := false
 				for _, in2 := range an.Instrs(fn, false) {
 					lk, ok := in2.(*ssa.Lookup)
-					if !ok || !lk.CommaOk || !isFieldMap(aggV2 + ".data")(lk.X) || !an.Dominates(lk, in) {
+					if !ok || !lk.CommaOk || !isFieldMap(aggV2+".data")(lk.X) || !an.Dominates(lk, in) {
 						continue
 					}
 					// no explicit unlock between the lookup and the load
